@@ -65,6 +65,14 @@ def gram_photons(occ, vecs, nc):
 
 def explore(ctx, ds, nc, gates, photons, depth, losses=()):
     res = run_tlc("MCD", "MCD.cfg", generated={"MCD.tla": module("MCD", gates, photons, losses), "MCD.cfg": CFG % (ds * nc, ds, nc, depth)}, timeout=3000)
+    # 32-bit integers: deep states of many-mode instances can overflow (a TLC error, never silent): explore one step less and record it
+    while "Overflow when computing" in res.out and depth > 1:
+        depth -= 1
+        ctx.notes.setdefault("distinguish_overflow_reductions", []).append({"spatial_modes": ds, "internal_components": nc, "depth_reduced_to": depth})
+        res = run_tlc("MCD", "MCD.cfg", generated={"MCD.tla": module("MCD", gates, photons, losses), "MCD.cfg": CFG % (ds * nc, ds, nc, depth)}, timeout=3000)
+    if "Overflow when computing" in res.out:
+        ctx.notes.setdefault("distinguish_overflow_reductions", []).append({"spatial_modes": ds, "internal_components": nc, "unresolved": True})
+        return []
     if res.violated:
         ctx.report("spec:PqDistinguish:" + ",".join(map(str, res.violated)), "PqDistinguish violates its own theorem (oracle broken)", res.out[-2000:])
         return []
